@@ -9,6 +9,7 @@ signals the code under test sent.  Nothing in the package under test is patched.
 from __future__ import annotations
 
 import asyncio
+import contextlib
 import gc
 import json
 import logging
@@ -112,6 +113,9 @@ def read_log(logpath):
     return written
 
 
+HANG_LIMIT = 12.0     # seconds; the property's bound is two 1 s grace periods plus slack
+
+
 async def request(read, write, method, tok, timeout):
     try:
         r = await send_message(read, write, method, {"tok": tok}, timeout=timeout)
@@ -160,6 +164,18 @@ async def run_scenario(sc):
                 info["pending"] = await request(read, write, sc["bg_method"], sc["tok"], sc["req_timeout"])
             bg["task"] = asyncio.ensure_future(_bg())
             await anyio.sleep(0.15)
+        if sc.get("backlog"):
+            # more outgoing data than the child's stdin pipe and the transport buffers hold: the writer task is blocked
+            # in process.stdin.send() when the context is left
+            pad = "x" * 16000
+            for i in range(sc["backlog"]):
+                for _ in range(200):
+                    try:
+                        write.send_nowait({"jsonrpc": "2.0", "method": "notifications/pad", "params": {"i": i, "pad": pad}})
+                        break
+                    except anyio.WouldBlock:
+                        await anyio.sleep(0.005)
+            await anyio.sleep(0.2)
         if sc["wait_death"]:
             t_end = now() + 5
             while pstate(pid()) == "running":
@@ -239,7 +255,23 @@ async def run_scenario(sc):
         try:
             driver = asyncio.ensure_future(drive())
             try:
-                await driver
+                # watchdog: an exit that never returns is an observation (duration beyond every bound), not a reason to
+                # hang the worker; the child is killed below, which also releases a writer stuck on its pipe
+                done, _pending = await asyncio.wait({driver}, timeout=HANG_LIMIT)
+                if not done:
+                    info["exit"] = "hung"
+                    info["hung"] = True
+                    info.setdefault("t0", now() - HANG_LIMIT)
+                    info["t1"] = now()
+                    p_ = pid()
+                    info["state_at_hang"] = pstate(p_) if p_ else "never-started"
+                    if p_:
+                        with contextlib.suppress(ProcessLookupError, PermissionError):
+                            os.kill(p_, signal.SIGKILL)
+                    driver.cancel()
+                    await asyncio.wait({driver}, timeout=3)
+                else:
+                    driver.result()
             except asyncio.CancelledError:
                 if not driver.cancelled():
                     raise
